@@ -154,8 +154,8 @@ func TestSim(t *testing.T) {
 		}
 		if minimize && replayDir != "" && res.Harness == "" {
 			for _, class := range res.Classes() {
-				if minimized[class] {
-					continue // one replay file per violation class per worker
+				if minimized[class] || strings.Contains(","+os.Getenv("VERIF_KNOWN_CLASSES")+",", ","+class+",") {
+					continue // one replay file per violation class per worker; none for listed findings
 				}
 				minimized[class] = true
 				// another worker may already have produced a replay for this class
